@@ -1,4 +1,5 @@
 import PyxisVerif.Model.Obs
+import PyxisVerif.Spec.C03
 /-!
 # `pxmodel` – line-protocol driver of the model (PROTOCOL.md §4)
 -/
@@ -6,6 +7,20 @@ open PyxisVerif
 
 def obsLine (id : String) (point : String) (obs : Sexp) : String :=
   toString (Sexp.list [.sym "obs", .str id, .sym point, obs])
+
+def resS {α} (f : α → Sexp) : Res α → Sexp
+  | .ok a => Sexp.mk "ok" [f a]
+  | .defer => Sexp.mk "defer" []
+  | .err m => Sexp.mk "err" [.str m]
+  | .panic m => Sexp.mk "panic" [.str m]
+
+/-- property-specific predictions computed from the *input* by the declarative specs -/
+def specObs (c : Case) : Sexp :=
+  let c03 := match C03.specOfCase c with
+    | some (ps, t) => [Sexp.mk "c03" [Sexp.mk "realisable" [Sexp.ofBool (C03.realisableB ps t)],
+        Sexp.mk "verdict" [resS (fun (p : Nat × Nat) => Sexp.list [.int p.1, .int p.2]) (C03.verdict ps t)]]]
+    | none => []
+  Sexp.mk "spec" c03
 
 def handleCase (points : List String) (line : String) : List String :=
   match Sexp.parse line with
@@ -17,6 +32,7 @@ def handleCase (points : List String) (line : String) : List String :=
       points.filterMap fun pt =>
         if pt == "o2" then some (obsLine c.id "o2" c.o2)
         else if pt == "o3" then some (obsLine c.id "o3" c.o3)
+        else if pt == "spec" then some (obsLine c.id "spec" (specObs c))
         else none
 
 partial def loop (h : IO.FS.Stream) (out : IO.FS.Stream) (points : List String) : IO Unit := do
